@@ -337,6 +337,9 @@ def check_C11(tier):
     # the batch side of the comparison reads the same lines as the follow side: a byte order mark at the start of a file stays part of its first line
     engine_run(c, "bom-first-line", "BomMenu", lines="LinesBom", maxlines=2, maxfiles=2, modes=("batch", "incr"), tdefs=("anch", "plain"))
     engine_follow_run(c, "bom", "BomMenu", lines="LinesBom", maxlines=2, tdefs=("anch", "plain"), sample=300)
+    # ... and white space at the end of a line (blank, tab, NO-BREAK SPACE, CR + blank) stays part of it for every reader: `input`, its length, DISTINCT / GROUP BY on it, an anchored pattern
+    engine_run(c, "trailing-blanks", "PostMenu", lines="LinesPost", maxlines=2, maxfiles=2, modes=("batch", "incr"), tdefs=("anch", "plain"))
+    engine_follow_run(c, "trailing-blanks", "PostMenu", lines="LinesPost", maxlines=2, tdefs=("anch", "plain"), sample=400)
     # line-by-line feeding of a statement with a join (library API: with_executed_joined_table + execute per line)
     engine_run(c, "incr-join", "JoinMenu", lines="LinesJ", maxlines=3 if t else 2, maxfiles=1, joinsets="JoinSets", modes=("incr",), tdefs=("plain",))
     # values that are equal but distinguishable (0.0 / -0.0, NaN / -NaN) arriving on either side of a shown table: PERCENTILE / MIN / MAX / GROUP BY keep the batch result
